@@ -107,3 +107,94 @@ package report
 //@   ensures others: forall k string :: k != name ==> (has(names, k) <==> old(has(names, k))) && names[k] == old(names[k])
 //@   ensures dense_kept: forall k string :: has(names, k) ==> 1 <= names[k] && names[k] <= len(names)
 //@   ensures injective_kept: forall k1 string, k2 string :: has(names, k1) && has(names, k2) && names[k1] == names[k2] ==> k1 == k2
+
+// ---- C17: makeInitialStacks ----
+// getSrc (the closure that interns a source): the index returned is in range, existing sources keep their self
+// value and place list, a new source starts with self 0 and an empty non-nil place list
+//@ func StackSet.makeInitialStacks$1
+//@   requires s != nil && rpt != nil && rpt.options != nil && srcs != nil && seenFunctions != nil && len(s.Sources) >= 1
+//@   requires known: forall k key :: has(srcs, k) ==> 0 <= srcs[k] && srcs[k] < len(s.Sources)
+//@   ensures inrange: 0 <= result && result < len(s.Sources)
+//@   ensures grows: len(s.Sources) == old(len(s.Sources)) || (len(s.Sources) == old(len(s.Sources)) + 1 && result == len(s.Sources) - 1)
+//@   ensures known: forall k key :: has(srcs, k) ==> 0 <= srcs[k] && srcs[k] < len(s.Sources)
+//@   requires keyflag: forall k key :: has(srcs, k) ==> (s.Sources[srcs[k]].Inlined <==> k.inlined)
+//@   ensures keyflag: forall k key :: has(srcs, k) ==> (s.Sources[srcs[k]].Inlined <==> k.inlined)
+//@   ensures result_inlined: s.Sources[result].Inlined <==> inlined
+//@   ensures selfkept: forall x int :: 0 <= x && x < old(len(s.Sources)) ==> s.Sources[x].Self == old(s.Sources[x].Self) && len(s.Sources[x].Places) == old(len(s.Sources[x].Places)) && cap(s.Sources[x].Places) == old(cap(s.Sources[x].Places)) && (s.Sources[x].Places != nil <==> old(s.Sources[x].Places != nil))
+//@   ensures newsrc: len(s.Sources) == old(len(s.Sources)) + 1 ==> s.Sources[result].Self == 0 && s.Sources[result].Places != nil && len(s.Sources[result].Places) == 0 && cap(s.Sources[result].Places) == 0
+//@   requires keyfile: forall k key :: has(srcs, k) ==> s.Sources[srcs[k]].FileName == det("trimPath", 0, k.fileName, rpt.options.TrimPath, rpt.options.SourcePath)
+//@   ensures keyfile: forall k key :: has(srcs, k) ==> s.Sources[srcs[k]].FileName == det("trimPath", 0, k.fileName, rpt.options.TrimPath, rpt.options.SourcePath)
+//@   ensures result_file: line.Function != nil ==> s.Sources[result].FileName == det("trimPath", 0, line.Function.Filename, rpt.options.TrimPath, rpt.options.SourcePath)
+
+// makeInitialStacks: one stack per sample, rooted at source 0, every source index in range, all place lists empty and
+// non-nil (what fillPlaces requires), the stack carries the sample's selected value, and in every iteration exactly
+// the source that ends the new stack gains that value as self
+
+//@ spec macro func srcsok(s *StackSet) bool = len(s.Sources) >= 1 && forall x int :: 0 <= x && x < len(s.Sources) ==> s.Sources[x].Places != nil && len(s.Sources[x].Places) == 0 && cap(s.Sources[x].Places) == 0
+//@ spec macro func stacksok(s *StackSet) bool = s.Stacks != nil && forall i int :: 0 <= i && i < len(s.Stacks) ==> len(s.Stacks[i].Sources) >= 1 && s.Stacks[i].Sources[0] == 0
+//@     && forall j int :: 0 <= j && j < len(s.Stacks[i].Sources) ==> 0 <= s.Stacks[i].Sources[j] && s.Stacks[i].Sources[j] < len(s.Sources)
+//@ func StackSet.makeInitialStacks funcvalues=pure
+//@   callsite StackSet.makeInitialStacks$1 inlineflag: $arg1 == (j != len(loc.Line) - 1) && 0 <= j && j < len(loc.Line) && loc == sample.Location[i]
+//@   requires s != nil && rpt != nil && rpt.prof != nil && rpt.options != nil && s.Stacks != nil && len(s.Stacks) == 0
+//@   requires valid: forall i int :: 0 <= i && i < len(rpt.prof.Sample) ==> rpt.prof.Sample[i] != nil && forall j int :: 0 <= j && j < len(rpt.prof.Sample[i].Location) ==> rpt.prof.Sample[i].Location[j] != nil
+//@   ensures one_per_sample: len(s.Stacks) == len(rpt.prof.Sample)
+//@   ensures sources: srcsok(s)
+//@   ensures stacks: stacksok(s)
+//@   loop 1
+//@     invariant s != nil && rpt != nil && rpt.prof != nil && rpt.options != nil && srcs != nil && seenFunctions != nil
+//@     invariant 0 <= $i && $i <= len(rpt.prof.Sample) && len(s.Stacks) == $i
+//@     invariant srcs_ok: srcsok(s)
+//@     invariant stacks_ok: stacksok(s)
+//@     invariant known: forall k key :: has(srcs, k) ==> 0 <= srcs[k] && srcs[k] < len(s.Sources)
+//@     invariant keyflag: forall k key :: has(srcs, k) ==> (s.Sources[srcs[k]].Inlined <==> k.inlined)
+//@     invariant keyfile: forall k key :: has(srcs, k) ==> s.Sources[srcs[k]].FileName == det("trimPath", 0, k.fileName, rpt.options.TrimPath, rpt.options.SourcePath)
+//@     invariant valid: forall i int :: 0 <= i && i < len(rpt.prof.Sample) ==> rpt.prof.Sample[i] != nil && forall j int :: 0 <= j && j < len(rpt.prof.Sample[i].Location) ==> rpt.prof.Sample[i].Location[j] != nil
+//@     step one_stack: len(s.Stacks) == atiter(1, len(s.Stacks)) + 1 && s.Stacks[len(s.Stacks) - 1].Value == value
+//@     step self_leaf: forall x int :: 0 <= x && x < len(s.Sources) ==> s.Sources[x].Self == ite(x < atiter(1, len(s.Sources)), atiter(1, s.Sources[x].Self), 0) + ite(x == s.Stacks[len(s.Stacks) - 1].Sources[len(s.Stacks[len(s.Stacks) - 1].Sources) - 1], value, 0)
+//@     invariant cellsep: forall i int :: 0 <= i && i < len(s.Stacks) ==> !inarray(addr(unknownIndex), s.Stacks[i].Sources)
+//@   loop 2
+//@     invariant s != nil && rpt != nil && rpt.prof != nil && rpt.options != nil && srcs != nil && seenFunctions != nil && sample != nil
+//@     invariant len(s.Stacks) == $i1 && 0 <= $i1 && $i1 < len(rpt.prof.Sample)
+//@     invariant srcs_ok: srcsok(s)
+//@     invariant stacks_ok: stacksok(s)
+//@     invariant known: forall k key :: has(srcs, k) ==> 0 <= srcs[k] && srcs[k] < len(s.Sources)
+//@     invariant keyflag: forall k key :: has(srcs, k) ==> (s.Sources[srcs[k]].Inlined <==> k.inlined)
+//@     invariant keyfile: forall k key :: has(srcs, k) ==> s.Sources[srcs[k]].FileName == det("trimPath", 0, k.fileName, rpt.options.TrimPath, rpt.options.SourcePath)
+//@     invariant valid: forall i int :: 0 <= i && i < len(rpt.prof.Sample) ==> rpt.prof.Sample[i] != nil && forall j int :: 0 <= j && j < len(rpt.prof.Sample[i].Location) ==> rpt.prof.Sample[i].Location[j] != nil
+//@     invariant cur: sample == rpt.prof.Sample[$i1] && stack.Value == value
+//@     invariant cur_root: len(stack.Sources) >= 1 && stack.Sources[0] == 0
+//@     invariant cur_fresh: fresh(stack.Sources)
+//@     invariant curidx: forall j int :: 0 <= j && j < len(stack.Sources) ==> 0 <= stack.Sources[j] && stack.Sources[j] < len(s.Sources)
+//@     invariant selfkept: len(s.Sources) >= atiter(1, len(s.Sources)) && forall x int :: 0 <= x && x < len(s.Sources) ==> s.Sources[x].Self == ite(x < atiter(1, len(s.Sources)), atiter(1, s.Sources[x].Self), 0)
+//@     invariant -1 <= i && i < len(sample.Location)
+//@     invariant cellsep: forall i int :: 0 <= i && i < len(s.Stacks) ==> !inarray(addr(unknownIndex), s.Stacks[i].Sources)
+//@     invariant cellsep_cur: !inarray(addr(unknownIndex), stack.Sources)
+//@     invariant stacksep: forall i int :: 0 <= i && i < len(s.Stacks) ==> !same_array(s.Stacks[i].Sources, stack.Sources)
+//@   loop 3
+//@     invariant s != nil && rpt != nil && rpt.prof != nil && rpt.options != nil && srcs != nil && seenFunctions != nil && sample != nil
+//@     invariant len(s.Stacks) == $i1 && 0 <= $i1 && $i1 < len(rpt.prof.Sample)
+//@     invariant srcs_ok: srcsok(s)
+//@     invariant stacks_ok: stacksok(s)
+//@     invariant known: forall k key :: has(srcs, k) ==> 0 <= srcs[k] && srcs[k] < len(s.Sources)
+//@     invariant keyflag: forall k key :: has(srcs, k) ==> (s.Sources[srcs[k]].Inlined <==> k.inlined)
+//@     invariant keyfile: forall k key :: has(srcs, k) ==> s.Sources[srcs[k]].FileName == det("trimPath", 0, k.fileName, rpt.options.TrimPath, rpt.options.SourcePath)
+//@     invariant valid: forall i int :: 0 <= i && i < len(rpt.prof.Sample) ==> rpt.prof.Sample[i] != nil && forall j int :: 0 <= j && j < len(rpt.prof.Sample[i].Location) ==> rpt.prof.Sample[i].Location[j] != nil
+//@     invariant cur: sample == rpt.prof.Sample[$i1] && stack.Value == value
+//@     invariant cur_root: len(stack.Sources) >= 1 && stack.Sources[0] == 0
+//@     invariant cur_fresh: fresh(stack.Sources)
+//@     invariant curidx: forall j int :: 0 <= j && j < len(stack.Sources) ==> 0 <= stack.Sources[j] && stack.Sources[j] < len(s.Sources)
+//@     invariant selfkept: len(s.Sources) >= atiter(1, len(s.Sources)) && forall x int :: 0 <= x && x < len(s.Sources) ==> s.Sources[x].Self == ite(x < atiter(1, len(s.Sources)), atiter(1, s.Sources[x].Self), 0)
+//@     invariant 0 <= i && i < len(sample.Location) && loc == sample.Location[i] && loc != nil && -1 <= j && j < len(loc.Line)
+//@     step grows: len(stack.Sources) == atiter(3, len(stack.Sources)) + 1
+//@     invariant cellsep: forall i int :: 0 <= i && i < len(s.Stacks) ==> !inarray(addr(unknownIndex), s.Stacks[i].Sources)
+//@     invariant cellsep_cur: !inarray(addr(unknownIndex), stack.Sources)
+//@     invariant stacksep: forall i int :: 0 <= i && i < len(s.Stacks) ==> !same_array(s.Stacks[i].Sources, stack.Sources)
+
+// Stacks: the two builders run in sequence with their preconditions met (makeInitialStacks establishes what
+// fillPlaces requires), the total is the report's, and the arrays handed to the page are non-nil
+//@ func Report.Stacks arith bv funcvalues=pure floatabs=yes
+//@   uses measurement.unitsok
+//@   requires rpt != nil && rpt.prof != nil && rpt.options != nil
+//@   requires valid: forall i int :: 0 <= i && i < len(rpt.prof.Sample) ==> rpt.prof.Sample[i] != nil && forall j int :: 0 <= j && j < len(rpt.prof.Sample[i].Location) ==> rpt.prof.Sample[i].Location[j] != nil
+//@   ensures total: result.Total == rpt.total && result.Type == rpt.options.SampleType
+//@   ensures nonnil: result.Stacks != nil && result.Sources != nil && len(result.Stacks) == len(rpt.prof.Sample)
